@@ -25,13 +25,24 @@ three-pre-emption schedules in which B's call straddles two program items of A
 
 for all (i, j, b) (always all of them: a plain call that begins in one block and ends in the next).
 
+Programs (PROGS): the three original ones (explicit block, same method in both threads; run on the platform-level method
+name()/stat and on the front-end-level method memory_info()/statm) and, with explicitly named methods (PROGS2):
+as_dict() in the owner thread instead of an explicit block (as_dict enters oneshot() internally), a nested block, an exit
+by an exception, a plain caller using ANOTHER source than the owner (status, smaps), methods that cross both cache levels
+(cpu_times / ppid / uids: front-end `_cache` over `_proc._cache`) in one or both threads, mixed levels on one source, and
+TWO plain callers (three threads: plans A a · B b · C c · A end · B end · C end and rotations).
+
 Oracle — written from the property statement only. The content version of every source is bumped at
 every baton hand-over and at the start of every program item, so the version a call returns tells
 in which epoch its source was read:
   * no call raises anything but a psutil error (spurious KeyError / AttributeError / RuntimeError …);
   * a call made by A inside its k-th block returns a version ≥ the version current when that block
     was entered (read in that block) and ≤ the version current at its return;
-  * B's call returns a version ≤ the one current at its return and ≥ the smaller of (version at the
+  * a value in the dict returned by A's as_dict() was read inside that as_dict() call (or inside the enclosing block);
+  * after a block was left — normally or by an exception — A's next call returns a version ≥ the one current at its start;
+  * a nested enter/exit pair does not end the block (values after it still ≥ the OUTER entry; the block interval used for
+    B's calls stays open until the outermost exit);
+  * B's (and C's) call returns a version ≤ the one current at its return and ≥ the smaller of (version at the
     start of B's call, version at the entry of any block of A that overlapped B's call) — the second
     term is the recorded finding C16-xthread-hit-predates-call (sharing the block's cache between
     threads is oneshot's design), accepted here so that only NEW violations are reported.
@@ -42,6 +53,22 @@ import threading
 from harness.props import c16_sched
 
 PS_ERRORS = c16_sched.PS_ERRORS
+
+
+class Boom(Exception):
+    """the exception thrown in a block's body"""
+
+
+def meth_files():
+    from harness.props import c16
+    m = {}
+    for x in c16.STAT_M:
+        m[x] = ["stat"]
+    for x in c16.STATUS_M:
+        m[x] = ["status"]
+    m.update({"memory_maps": ["smaps"], "memory_full_info": ["smaps", "statm"], "memory_info": ["statm"],
+              "cmdline": ["cmdline"], "io_counters": ["io"]})
+    return m
 
 
 def _nested_codes(code, acc):
@@ -58,7 +85,9 @@ class Explorer:
         self.impl = impl
         self.ps = impl.ps
         self.target_name = target
-        self.meths = c16_sched.TARGETS[target]
+        self.meths = c16_sched.TARGETS[target] if target else []      # legacy programs: ["call", index]
+        self.mfiles = meth_files()
+        self.files = sorted({f for _, f in self.meths})
         self.watched = set()
         _nested_codes(self.ps._common.memoize_when_activated.__code__, self.watched)
         self.watched.discard(self.ps._common.memoize_when_activated.__code__)
@@ -97,9 +126,23 @@ class Explorer:
 
     def _bump(self):
         self.version += 1
-        for _, f in self.meths:
+        for f in self.files:
             self.impl.ver[f] = self.version
             self.impl._write(f)
+
+    def _meth(self, item):
+        return self.meths[item[1]][0] if isinstance(item[1], int) else item[1]
+
+    def _files_of(self, progs):
+        fs = set()
+        for pr in progs:
+            for it in pr:
+                if it[0] == "call":
+                    fs.update(self.mfiles.get(self._meth(it), []))
+                elif it[0] == "asdict":
+                    for n in it[1]:
+                        fs.update(self.mfiles.get(n, []))
+        return sorted(fs)
 
     def _worker(self, tid, prog):
         self.tids[threading.get_ident()] = tid
@@ -118,10 +161,39 @@ class Explorer:
                 self._bump()
                 v0 = self.version
                 if item[0] == "call":
-                    meth = self.meths[item[1]][0]
-                    o = self.impl.outcome(meth, getattr(self.impl.p, meth))
+                    meth = self._meth(item)
+                    o = dict(self.impl.outcome(meth, getattr(self.impl.p, meth)), meth=meth)
                     out.append(o)
                     log.append(("call", v0, self.version, o, len(cms)))
+                elif item[0] == "asdict":
+                    try:
+                        d = self.impl.p.as_dict(attrs=list(item[1]))
+                        vals = {}
+                        for n, v in d.items():
+                            try:
+                                vals[n] = self.impl.decode(n, v)
+                            except Exception as e:  # noqa: BLE001
+                                vals[n] = ["undecodable", repr(v)[:80], type(e).__name__]
+                        o = {"kind": "dict", "values": vals}
+                    except BaseException as e:  # noqa: BLE001
+                        o = {"kind": "exc", "exc": type(e).__name__, "at": "as_dict"}
+                    out.append(o)
+                    log.append(("asdict", v0, self.version, o, len(cms)))
+                elif item[0] == "exit_exc":
+                    o = None
+                    if cms:
+                        cm = cms.pop()
+                        try:
+                            try:
+                                raise Boom()
+                            except Boom:
+                                cm.__exit__(*sys.exc_info())
+                        except Boom:
+                            pass
+                        except BaseException as e:  # noqa: BLE001
+                            o = {"kind": "exc", "exc": type(e).__name__, "at": "exit"}
+                            out.append(o)
+                    log.append(("exit", v0, self.version, o, len(cms)))
                 elif item[0] == "enter":
                     cm = self.impl.p.oneshot()
                     try:
@@ -167,6 +239,7 @@ class Explorer:
         self.impl.reset()
         self.version = 0
         self.free = False
+        self.files = self._files_of(progs)
         self.tids, self.results, self.log = {}, {}, {}
         self.go = {t: threading.Event() for t in range(len(progs))}
         self.parked = {t: False for t in range(len(progs))}
@@ -203,41 +276,79 @@ class Explorer:
                 {"n": dict(self.npoints), "items": {t: list(v) for t, v in self.item_points.items()}}, problem)
 
 
-def judge(logs):
-    """Returns a description of the first violated clause, or None."""
-    a, b = logs.get(0, []), logs.get(1, [])
-    for who, lg in ((0, a), (1, b)):
-        for kind, v0, v1, o, depth in lg:
-            if o is not None and o.get("kind") == "exc" and o.get("exc") not in PS_ERRORS:
-                return "thread %d: %s raised a spurious %s" % (who, kind, o["exc"])
-            if o is not None and o.get("kind") == "undecodable":
-                return "thread %d: undecodable value %s" % (who, o.get("repr"))
-    # A's blocks: (entry version, exit version)
+def _bad_outcome(who, kind, o):
+    if o is None:
+        return None
+    if o.get("kind") == "exc" and o.get("exc") not in PS_ERRORS:
+        return "thread %d: %s raised a spurious %s" % (who, kind, o["exc"])
+    if o.get("kind") == "undecodable":
+        return "thread %d: undecodable value %s" % (who, o.get("repr"))
+    if o.get("kind") == "dict":
+        for n, v in o["values"].items():
+            if v and v[0] == "undecodable":
+                return "thread %d: as_dict()[%r] undecodable: %s" % (who, n, v[1])
+    return None
+
+
+def judge(logs, stats=None):
+    """Returns a description of the first violated clause, or None. Thread 0 is the block owner, every other thread a
+    plain caller. `stats` (a dict) collects things that are counted, not judged."""
+    for who in sorted(logs):
+        for kind, v0, v1, o, depth in logs[who]:
+            why = _bad_outcome(who, kind, o)
+            if why:
+                return why
+    a = logs.get(0, [])
+    # A's outermost blocks: (entry version, exit version); nested enter/exit pairs change nothing
     blocks = []
-    cur = None
+    cur = None          # version current when the open outermost block was entered
+    nest = 0
+    first = {}          # method -> first version it returned in the open outermost block
     for kind, v0, v1, o, depth in a:
-        if kind == "enter" and o is None and cur is None:
-            cur = v0
-        elif kind == "exit" and cur is not None and depth == 0:
-            blocks.append((cur, v1))
-            cur = None
+        if kind == "enter" and o is None:
+            if nest == 0:
+                cur = v0
+                first = {}
+            nest += 1
+        elif kind == "exit" and nest > 0:
+            nest -= 1
+            if nest == 0:
+                blocks.append((cur, v1))
+                cur = None
         elif kind == "call" and o and o.get("kind") == "ok":
             val = o["value"][0]
             lo = cur if cur is not None else v0
             if val is not None and not (lo <= val <= v1):
                 return ("thread 0: a call %s a block entered at version %d returned version %d at version %d"
-                        % ("inside" if cur is not None else "outside", lo, val, v1))
+                        % ("inside" if cur is not None else "outside (fresh-after-exit clause)", lo, val, v1))
+            if cur is not None and val is not None and stats is not None:
+                m = o.get("meth")
+                if m in first and first[m] != val:
+                    stats["owner_value_replaced_in_block"] = stats.get("owner_value_replaced_in_block", 0) + 1
+                first.setdefault(m, val)
+        elif kind == "asdict" and o and o.get("kind") == "dict":
+            lo = cur if cur is not None else v0
+            if cur is None:
+                blocks.append((v0, v1))          # as_dict() is a block of its own
+            for n, v in sorted(o["values"].items()):
+                if v and v[0] is not None and not (lo <= v[0] <= v1):
+                    return ("thread 0: as_dict()[%r] returned version %d, not read during the call/block (versions %d..%d)"
+                            % (n, v[0], lo, v1))
     if cur is not None:
         blocks.append((cur, 10 ** 9))
-    for kind, v0, v1, o, depth in b:
-        if kind == "call" and o and o.get("kind") == "ok":
-            val = o["value"][0]
-            lo = v0
-            for (e0, e1) in blocks:
-                if e0 <= v1 and e1 >= v0:          # the block overlapped B's call
-                    lo = min(lo, e0)
-            if val is not None and not (lo <= val <= v1):
-                return "thread 1: a plain call made during versions %d..%d returned version %d (allowed from %d)" % (v0, v1, val, lo)
+    for who in sorted(logs):
+        if who == 0:
+            continue
+        for kind, v0, v1, o, depth in logs[who]:
+            if kind == "call" and o and o.get("kind") == "ok":
+                val = o["value"][0]
+                lo = v0
+                for (e0, e1) in blocks:
+                    if e0 <= v1 and e1 >= v0:          # the block overlapped this call
+                        lo = min(lo, e0)
+                if val is not None and not (lo <= val <= v1):
+                    return ("thread %d: a plain call made during versions %d..%d returned version %d (allowed from %d)"
+                            % (who, v0, v1, val, lo))
     return None
 
 
@@ -247,67 +358,157 @@ PROGS = [
     ("empty_then_call", [[["enter"], ["exit"], ["enter"], ["call", 0], ["exit"]], [["call", 0]]]),
 ]
 
+# programs with explicitly named methods (family, name, programs)
+PROGS2 = [
+    ("asdict", "asdict_owner", [[["asdict", ["name", "cpu_times", "ppid"]]], [["call", "name"]]]),
+    ("asdict", "asdict_two_level", [[["asdict", ["cpu_times", "uids"]], ["asdict", ["cpu_times"]]], [["call", "cpu_times"]]]),
+    ("nested", "nested_block", [[["enter"], ["call", "name"], ["enter"], ["call", "name"], ["exit"], ["call", "name"],
+                                 ["exit"], ["call", "name"]], [["call", "name"]]]),
+    ("nested", "asdict_in_block", [[["enter"], ["call", "cpu_times"], ["asdict", ["name", "cpu_times"]],
+                                    ["call", "name"], ["exit"]], [["call", "cpu_times"]]]),
+    ("exc", "exit_by_exception", [[["enter"], ["call", "name"], ["exit_exc"], ["call", "name"], ["enter"],
+                                   ["call", "name"], ["exit"]], [["call", "name"]]]),
+    ("other_source", "owner_stat_caller_status", [[["enter"], ["call", "name"], ["exit"]], [["call", "num_threads"]]]),
+    ("other_source", "owner_status_caller_smaps", [[["enter"], ["call", "num_threads"], ["call", "memory_maps"], ["exit"]],
+                                                   [["call", "memory_maps"]]]),
+    ("two_level", "cpu_times_two_blocks", [[["enter"], ["call", "cpu_times"], ["exit"], ["enter"], ["call", "cpu_times"],
+                                            ["exit"]], [["call", "cpu_times"]]]),
+    ("two_level", "ppid_both", [[["enter"], ["call", "ppid"], ["exit"]], [["call", "ppid"]]]),
+    ("two_level", "uids_gids", [[["enter"], ["call", "uids"], ["call", "gids"], ["exit"]], [["call", "uids"]]]),
+    ("two_level", "owner_two_level_caller_one", [[["enter"], ["call", "cpu_times"], ["exit"]], [["call", "name"]]]),
+    ("two_level", "owner_one_caller_two_level", [[["enter"], ["call", "name"], ["exit"], ["enter"], ["call", "cpu_times"],
+                                                  ["exit"]], [["call", "cpu_times"]]]),
+    ("three_threads", "two_plain_callers", [[["enter"], ["call", "name"], ["exit"]], [["call", "name"]], [["call", "cpu_times"]]]),
+]
+
 
 def plans(na, nb, a_items, full, rng, budget):
     """Plans (lists of (tid, points)); every plan is completed by "thread 0 to the end, thread 1 to the end".
     two pre-emptions:   A a · B b · A end · B end        and        B b · A a · B end · A end
     three pre-emptions: A up to the start of its i-th program item · B b · A up to the start of its j-th item (j > i) ·
                         B end · A end      (a plain call straddling the end of one block and the start of the next)
-    All of them when `full`, else all three-pre-emption plans + a stratified sample of `budget` two-pre-emption plans."""
+    All of them when `full`, else a stratified sample of `budget` two-pre-emption plans + (at most `budget`) three-pre-emption ones."""
     two = [[(0, a), (1, b), (0, None), (1, None)] for a in range(na + 1) for b in range(nb + 1)]
     two += [[(1, b), (0, a), (1, None), (0, None)] for a in range(na + 1) for b in range(nb + 1)]
     three = [[(0, pi), (1, b), (0, pj - pi), (1, None), (0, None)]
              for i, pi in enumerate(a_items) for pj in a_items[i + 1:] + [na] for b in range(1, nb + 1)]
     if full or len(two) <= budget:
         return three + two
-    three = [p for k, p in enumerate(three) if k % 3 == 0] if len(three) > budget else three
+    if len(three) > budget:
+        three = rng.sample(three, budget)
     keep = [p for p in two if p[0][1] % 7 == 0 and p[1][1] in (0, nb, na)]
+    if len(keep) > budget // 2:
+        keep = rng.sample(keep, budget // 2)
     rest = [p for p in two if p not in keep]
     return three + keep + rng.sample(rest, max(0, min(len(rest), budget - len(keep))))
 
 
+def plans3(n, full, rng, budget, cap=2500):
+    """three threads: A a · B b · C c · (everybody to the end), for the six orders of who runs first; `cap` plans at most"""
+    import itertools
+    allp = []
+    for order in itertools.permutations(range(3)):
+        for a in range(0, n[order[0]] + 1, 4 if order[0] == 0 else 1):
+            for b in range(0, n[order[1]] + 1, 4 if order[1] == 0 else 1):
+                for c in range(0, n[order[2]] + 1, 8 if order[2] == 0 else 2):
+                    allp.append([(order[0], a), (order[1], b), (order[2], c)] + [(t, None) for t in order])
+    k = cap if full else budget
+    return allp if len(allp) <= k else rng.sample(allp, k)
+
+
+def _solo_points(ex, progs):
+    """scheduling points of each thread when run alone, and of the plain callers when they run inside a block of A"""
+    _, _, pts, prob = ex.run(progs, [(t, None) for t in range(len(progs))])
+    if prob:
+        return None, None, prob
+    n = dict(pts["n"])
+    for st in pts["items"][0][1:]:
+        _, _, p2, _ = ex.run(progs, [(0, st)] + [(t, None) for t in range(1, len(progs))])
+        for t in range(1, len(progs)):
+            n[t] = max(n[t], p2["n"][t])
+    return n, pts["items"][0], None
+
+
+def _explore_program(ctx, res, ex, family, pname, progs, target, full, budget, stop_at_first, cap=None):
+    n, a_items, prob = _solo_points(ex, progs)
+    inp0 = {"target": target, "progs": progs, "program": pname}
+    if prob:
+        res.disagree("model", {"preempt": dict(inp0, plan="solo")}, prob, None, None,
+                     note="bounded-pre-emption explorer could not run the programs: " + prob)
+        return 0, False, False
+    if len(progs) == 2:
+        pl = plans(n[0], n[1], a_items, full, ctx.rng, budget)
+        exhaustive = full
+        if full and cap and len(pl) > cap:
+            three = [p for p in pl if len(p) == 5]
+            two = [p for p in pl if len(p) == 4]
+            pl = three + ctx.rng.sample(two, max(0, cap - len(three)))
+            exhaustive = False
+    else:
+        pl = plans3(n, full, ctx.rng, budget)
+        exhaustive = False
+    total, found = 0, False
+    stats = {}
+    for plan in pl:
+        out, logs, _, prob = ex.run(progs, plan)
+        total += 1
+        res.count("preempt:%s:%s:%d-switch" % (family, pname, len(plan) - len(progs)))
+        res.case(("preempt", family, pname, plan), nontrivial=all(k is None or k > 0 for _, k in plan))
+        why = prob or judge(logs, stats)
+        if why and not found:
+            found = True
+            res.disagree("spec", {"preempt": dict(inp0, plan=plan, points=[n[t] for t in sorted(n)])},
+                         {"results": out, "log": {str(k): v for k, v in logs.items()}}, None, {"clause": why},
+                         note="bounded-pre-emption exploration (model-independent oracle): " + why)
+            if not full or stop_at_first:
+                break
+    for k, v in stats.items():
+        res.count("preempt:" + k, v)
+    return total, found, exhaustive
+
+
 def explore(ctx, res, full=False, budget=400):
-    """Runs the exploration; records a 'spec' disagreement for the first violating schedule of each program."""
+    """Runs the exploration; records a 'spec' disagreement for the first violating schedule of each program.
+    quick: a stratified sample (`budget` ≈ plans per original program×target, a third of it per new program);
+    thorough: every two-/three-pre-emption plan of the original programs, and of the new two-thread programs up to a cap
+    (beyond it: all three-pre-emption plans + a sample; reported in `preempt_exhaustive`);
+    failing-input search (ctx.budget_factor > 1): every plan, programs in order, stops at the first violation."""
     from harness.props import c16
     impl = c16.Impl(ctx)
     old = sys.getswitchinterval()
     total = 0
+    search = ctx.budget_factor > 1
+    exh, sampled = [], []
     try:
+        done = False
         for target in ("proc", "front"):
             ex = Explorer(impl, target)
             for pname, progs in PROGS:
-                # dry runs: number of scheduling points of each thread when run alone
-                _, _, pts, prob = ex.run(progs, [(0, None), (1, None)])
-                if prob:
-                    res.disagree("model", {"preempt": {"target": target, "progs": progs, "plan": "solo"}}, prob, None, None,
-                                 note="bounded-pre-emption explorer could not run the programs: " + prob)
-                    continue
-                na, nb = pts["n"][0], pts["n"][1]
-                # B's path is longer when it runs inside a block of A (lookup miss, compute, store): measure that too
-                for st in pts["items"][0][1:]:
-                    _, _, p2, _ = ex.run(progs, [(0, st), (1, None)])
-                    nb = max(nb, p2["n"][1])
-                found = False
-                for plan in plans(na, nb, pts["items"][0], full, ctx.rng, budget):
-                    out, logs, _, prob = ex.run(progs, plan)
-                    total += 1
-                    res.count("preempt:%s:%s:%d-switch" % (target, pname, len(plan) - 2))
-                    res.case(("preempt", target, pname, plan), nontrivial=all(n is None or n > 0 for _, n in plan))
-                    why = prob or judge(logs)
-                    if why and not found:
-                        found = True
-                        res.disagree("spec", {"preempt": {"target": target, "progs": progs, "plan": plan,
-                                                           "points": [na, nb], "program": pname}},
-                                     {"results": out, "log": {str(k): v for k, v in logs.items()}}, None,
-                                     {"clause": why},
-                                     note="bounded-pre-emption exploration (model-independent oracle): " + why)
-                        if not full:
-                            break
+                n, found, e = _explore_program(ctx, res, ex, target, pname, progs, target, full, budget // 2 if not full else budget, search)
+                total += n
+                (exh if e else sampled).append("%s:%s" % (target, pname))
+                if found and search:
+                    done = True
+                    break
+            if done:
+                break
+        if not done:
+            ex = Explorer(impl, None)
+            for family, pname, progs in PROGS2:
+                n, found, e = _explore_program(ctx, res, ex, family, pname, progs, None, full, max(12, budget // 4), search,
+                                               cap=None if search else 2500)
+                total += n
+                (exh if e else sampled).append(pname)
+                if found and search:
+                    break
         res.extra["preempt_schedules"] = res.extra.get("preempt_schedules", 0) + total
+        res.extra["preempt_programs"] = len(PROGS) * 2 + len(PROGS2)
         if full:
-            res.extra["preempt_exhaustive"] = ("every schedule with at most two pre-emptions (A a points, B b points, A to the end, B to the end; "
-                                               "and B first) of %d programs on both cache levels, at the granularity of every bytecode of "
-                                               "memoize_when_activated's closures, Process.oneshot and oneshot_enter/exit" % len(PROGS))
+            res.extra["preempt_exhaustive"] = (
+                "every schedule with at most two pre-emptions (A a points, B b points, A to the end, B to the end; and B first) and every "
+                "three-pre-emption schedule in which B's call straddles two program items of A, at the granularity of every bytecode of "
+                "memoize_when_activated's closures, Process.oneshot and oneshot_enter/exit, for the programs: %s; "
+                "all three-pre-emption schedules + a sample of the others for: %s" % (", ".join(exh) or "-", ", ".join(sampled) or "-"))
     finally:
         sys.setswitchinterval(old)
         impl.close()
@@ -319,7 +520,7 @@ def replay(ctx, rp, res):
     p = rp["input"]["preempt"]
     impl = c16.Impl(ctx)
     try:
-        ex = Explorer(impl, p["target"])
+        ex = Explorer(impl, p.get("target"))
         out, logs, _, prob = ex.run(p["progs"], [tuple(x) for x in p["plan"]])
         return bool(prob or judge(logs))
     finally:
